@@ -39,7 +39,11 @@ ASSUME = [
     "epoll_ctl on a foreign descriptor is observed through its effect only (the owner's descriptor must still wake after "
     "fork + xcm_cleanup in the child); close() on a descriptor the library did not create is observed directly",
     "a creation call that failed because of an injected fault is retried once; sockets are non-blocking and driven by "
-    "xcm_finish loops; the control interface is on only in the ctl*/fork* scenarios",
+    "xcm_finish loops (blocking creation paths: scenarios refused-b, conn-b); the control interface is on only in the "
+    "ctl*/fork* scenarios",
+    "thorough tier: pairs of faults for the scenarios listed in PAIRS (PAIRS_LOWER for btcp, btls, uxf), single faults for "
+    "the remaining variants, and every single fault once more in the ASan/UBSan build with LeakSanitizer queried at the end "
+    "of each execution (unreachable blocks); in the 101-socket scenarios faults are offered from the 99th socket on",
 ]
 
 
